@@ -185,6 +185,19 @@ func (p *clientStreamProcessorFMP4) processSegment(ctx context.Context, seg *seg
 
 	for _, part := range parts {
 		for _, partTrack := range part.Tracks {
+			if _, ok := p.trackProcessors[partTrack.ID]; ok {
+				partTrackCount++
+			}
+		}
+	}
+
+	// track processors must be able to signal the end of every entry without blocking,
+	// otherwise a segment with many fragments causes a deadlock:
+	// this routine is still pushing entries while they wait for the signal to be read.
+	p.chPartTrackProcessed = make(chan struct{}, partTrackCount)
+
+	for _, part := range parts {
+		for _, partTrack := range part.Tracks {
 			trackProc, ok := p.trackProcessors[partTrack.ID]
 			if !ok {
 				continue
@@ -201,8 +214,6 @@ func (p *clientStreamProcessorFMP4) processSegment(ctx context.Context, seg *seg
 			if err != nil {
 				return err
 			}
-
-			partTrackCount++
 		}
 	}
 
